@@ -4,6 +4,7 @@
 import Rsactor.Inv.Dead
 import Rsactor.Ties.dead_letter_census
 import Rsactor.Ties.timeout_wrappers_shape
+import Rsactor.Ties.forwarders_verbatim
 
 namespace Rsactor.Props.C13
 open Rsactor Rsactor.Model Rsactor.Monitor
@@ -44,5 +45,6 @@ example : ∃ s, run? (init 1 {})
 /-! ### ties to the source: shape lemmas about the tables regenerated from /repo on every run -/
 -- @tie Rsactor.Ties.dead_letter_census
 -- @tie Rsactor.Ties.timeout_wrappers_shape
+-- @tie Rsactor.Ties.forwarders_verbatim
 
 end Rsactor.Props.C13
